@@ -397,7 +397,18 @@ class Judge:
         if k in ("pp", "ss") and not any(re.match(r"-component\s+Calcite$", ln.strip()) for ln in old):
             return None      # the named component does not exist in this (empty, mixed from nothing) entity: MODIFY adds it
         self.stats["mod_checked"] += 1
-        if not any(re.match(must, ln.strip()) for ln in lines):
+        if isinstance(must, tuple):
+            # numeric value: compare as doubles (the dump prints 17 significant digits, e.g. 20.745000000000001)
+            def shows(ln):
+                m = re.match(must[0], ln.strip())
+                try:
+                    return bool(m) and float(m.group(1)) == must[1]
+                except ValueError:
+                    return False
+            present = any(shows(ln) for ln in lines)
+        else:
+            present = any(re.match(must, ln.strip()) for ln in lines)
+        if not present:
             return f"{k} {n} after {G.KW[k]}_MODIFY does not show the new value ({must})"
         if len(old) != len(lines):
             return f"{k} {n}: {G.KW[k]}_MODIFY changed the number of lines {len(old)} -> {len(lines)}"
